@@ -67,10 +67,12 @@ PROPS = {
     "C14": api("C14", "exploration",
                "history + executable model: all canonical action sequences over <=4 slots with alphabet {create rs(4,2), rs(3,3), xor(5,5,3), null, failed-create, destroy(dead), destroy(slot), use(slot)} up to depth 4 (quick) / 6 (thorough), each with and without a descriptor-counter preset (counter jumps to INT_MAX-1 after the second create so that the wrap lands on live descriptors); "
                "random histories of length 10..200 with counter presets {none, jump after 2nd/3rd create, INT_MAX-1 from the start, -5}; all 24 destruction orders of four RS instances; after every step: registry length == |model|, descriptor positive and unique, APIs on dead descriptors fail, used instance round-trips (decode with data loss + re-encode equals kept stripe); "
-               "non-trivial = every history; distinct = (action sequence, preset)",
+               "plus, with one or two instances of the same backend alive, a create in which every allocation site fails once (ledger failpoint, forked child per site): the failed create leaves the registry as it was, the siblings keep round-tripping, a following create works, the siblings can be destroyed in either order; "
+               "non-trivial = every history / injected create; distinct = (action sequence, preset) or (config, siblings, allocation site)",
                exhaustive={"quick": True, "thorough": True},
                exhaustive_scope="all canonical sequences up to depth 4 (quick) / 6 (thorough) over the stated alphabet; longer histories are random",
-               extra_runs=[{"name": "clang-O2", "flavour": "clang", "driver": "drv_api_ledger", "args": []}]),
+               extra_runs=[{"name": "clang-O2", "flavour": "clang", "driver": "drv_api_ledger", "args": []},
+                           {"name": "plain-oomcreate", "flavour": "plain", "driver": "drv_api_ledger", "args": ["--mode", "oomcreate"]}]),
     "C16": api("C16", "exploration",
                "case = one random API history (20..300 steps, 4 slots, all available backends) mixing create/destroy/encode/decode (ok, too few, unrecoverable, duplicates, bad header, re-sealed edits)/reconstruct (ok, too few, bad destination)/fragments_needed/metadata/validation/invalid arguments/unsupported shapes, each step followed by its cleanup call; "
                "monitors: ASan (double free, use-after-free, overflow), LeakSanitizer recoverable check every 16 histories and at exit, conservation ledger (library-allocated live blocks and dlopen balance back to the pre-step value after every self-contained step and to the baseline at the end of each history); "
